@@ -593,6 +593,10 @@ func checkC13(e *Engine, r *Report) {
 		}
 		r.Check(okA, "ELEmitEventDecorator › txIndex attribute", e.Pos(em.Pos()), "GetTxCountTransient(ctx) − 1", "the ethereum_tx event's index is not the Ethereum transaction counter − 1")
 	})
+
+	r.Rule("R7", "KEY-INJECTIVE", "the per-transaction transient slots (gas, log count, receipt) are keyed injectively by the transaction index: prefix ‖ big-endian index, nothing truncated, nothing dropped", 3, func() {
+		e.checkKeyBuilders(r, pkgEvmTypes, []string{"TxGasTransientKey", "TxLogCountTransientKey", "TxReceiptTransientKey"}, "two transactions of a block share one slot: a receipt, gas or log count of one overwrites the other's")
+	})
 }
 
 func hasMethodCall(s *Slice, name string) bool {
